@@ -9,7 +9,7 @@
   step `w<ms>`     the harness really sleeps `ms` milliseconds (sub-second phases; the histories
                    that use it keep every request ≥ 0.2 s away from a whole-second boundary of its
                    bucket and are discarded if the real clock drifted more than 0.15 s)
-  step `q,<src>,<u|t>,<request>,<opcode>,<resp>,<rcode>,<qname>,<sos>,<edns>,<rnd>,<idx>,<dest>,<qhash>,<kc>`
+  step `q,<src>,<u|t>,<request>,<opcode>,<resp>,<rcode>,<qname>,<sos>,<edns>,<rnd>,<idx>,<dest>,<qhash>,<kc>,<bare>`
        one request. `src` = source address (8 hex digits IPv4, 32 hex digits IPv6, before the
        canonicalisation of `ReceivedInfo::new`); transport; the request octets (hex; used by the
        harness only, so that a replay sends exactly the same message); opcode. Recorded by the harness
@@ -19,7 +19,10 @@
        carries an OPT record, `rnd` = the limited response was observed slipped (used only when
        slip ≥ 2), and the probe of the real server's `RandomState`: bucket index, masked
        destination, 32-bit QNAME hash; `kc` = key class: two responses of the history have the
-       same class iff the real code gives them the same key (probed on four more servers).
+       same class iff the real code gives them the same key (probed on four more servers);
+       `bare` = the handler's response already has TC set and no records besides OPT, so that a
+       slipped copy is octet-for-octet the same message: such a step prints `pass` for "sent or
+       slipped" (with slip ≥ 2 the spec column then follows the recorded `rnd`).
 
   Result: `ok <token>,<token>,…` one token per `q` step:
        `send` | `drop` | `slip:<tc>:<an>:<ns>:<ar>:<opt>` | `lim` (slip ≥ 2: limited) | `none`
@@ -63,6 +66,7 @@ structure QStep where
   dest : Nat
   qhash : Nat
   kc : Nat
+  bare : Bool
 
 inductive Step where
   | shift (secs : Nat)
@@ -79,14 +83,14 @@ def parseStep (s : String) : Option Step :=
   if s.startsWith "s" then (s.drop 1).toString.toNat?.map Step.shift
   else if s.startsWith "w" then (s.drop 1).toString.toNat?.map Step.wait
   else match s.splitOn "," with
-    | ["q", src, t, _req, opc, resp, rcode, qn, sos, edns, rnd, idx, dest, qh, kc] => do
+    | ["q", src, t, _req, opc, resp, rcode, qn, sos, edns, rnd, idx, dest, qh, kc, bare] => do
       let udp ← if t = "u" then some true else if t = "t" then some false else none
       let _ ← hexNat src
       if src.length ≠ 8 ∧ src.length ≠ 32 then none
       pure (.q { srcHex := src, udp, opcode := ← opc.toNat?, resp := ← boolArg resp,
                  rcode := ← rcode.toNat?, qname := ← nameArg qn, sos := ← nameArg sos,
                  edns := ← boolArg edns, rnd := ← boolArg rnd, idx := ← idx.toNat?,
-                 dest := ← dest.toNat?, qhash := ← qh.toNat?, kc := ← kc.toNat? })
+                 dest := ← dest.toNat?, qhash := ← qh.toNat?, kc := ← kc.toNat?, bare := ← boolArg bare })
     | _ => none
 
 def parseSteps (s : String) : Option (List Step) := (s.splitOn ";").mapM parseStep
@@ -114,7 +118,8 @@ def mkContext (q : QStep) : Context :=
                   edns := q.edns, tsig := false }
     rrl_action := none }
 
-def streamName (q : QStep) : List UInt8 := (q.sos.orElse fun _ => q.qname).getD []
+/-- source of synthesis, else QNAME, else (no question) the root name -/
+def streamName (q : QStep) : List UInt8 := (q.sos.orElse fun _ => q.qname).getD ROOT_NAME
 
 /-- `RandomState` reconstructed from the probes of one history -/
 def mkRandomState (p : RrlParams) (qs : List QStep) : RandomState :=
@@ -135,6 +140,10 @@ def b01 (b : Bool) : String := if b then "1" else "0"
 def showModelStep (p : RrlParams) (q : QStep) (c : Context) (destOk : Bool) : String :=
   let base :=
     if !q.resp then "none"
+    else if q.bare then
+      match c.rrl_action with
+      | some .Drop => if p.slip ≥ 2 then "lim" else "drop"
+      | _ => "pass"
     else match c.rrl_action with
       | none => "send"
       | some .Send => "send"
@@ -191,6 +200,9 @@ def specApplies (cfg : Spec.Rrl.Config) (qs : List (QStep × Nat)) : Bool :=
 
 def showSpecStep (cfg : Spec.Rrl.Config) (q : QStep) (send : Bool) : String :=
   if !q.resp then "none"
+  else if q.bare then
+    (if send then "pass" else if cfg.slip = 0 then "drop" else if cfg.slip = 1 then "pass"
+     else if q.rnd then "pass" else "lim")
   else if send then "send"
   else if cfg.slip = 0 then "drop"
   else if cfg.slip = 1 then s!"slip:1:0:0:{b01 q.edns}:{b01 q.edns}"
